@@ -112,8 +112,10 @@ Definition pos_fua_end : N := 4.
 Definition pos_stapa : N := 5.
 Definition pos_ap : N := 6.
 
-Definition hevc_single_type (t : N) : bool :=
-  (t <=? 9) || ((16 <=? t) && (t <=? 23)) || ((32 <=? t) && (t <=? 35)) || (t =? 39) || (t =? 40).
+(* C07 fix (lal 3ba6189): every type below 48 is a single NAL unit packet; before: hevc.NaluTypeMapping *)
+Definition hevc_single_type (fx : bool) (t : N) : bool :=
+  if fx then t <? 48
+  else (t <=? 9) || ((16 <=? t) && (t <=? 23)) || ((32 <=? t) && (t <=? 35)) || (t =? 39) || (t =? 40).
 
 (* calcPositionIfNeededAvc: 0 = position left unset *)
 Definition calc_pos_avc (fx : bool) (b : bytes) : res N :=
@@ -134,7 +136,7 @@ Definition calc_pos_hevc (fx : bool) (b : bytes) : res N :=
   if fx && (lenN b <? 1) then Ok 0 else
   let* b0 := idx s_calchevc_index b 0 in
   let outer := (b0 mod 128) / 2 in
-  if hevc_single_type outer then Ok pos_single
+  if hevc_single_type fx outer then Ok pos_single
   else if outer =? 49 then
     if fx && (lenN b <? 3) then Ok 0 else
     let* b2 := idx s_calchevc_index b 2 in
